@@ -100,7 +100,7 @@ where
                 LTermInner::Val(LValue::Number(w)),
             ) => {
                 /* All operands grounded. */
-                if u * v == *w {
+                if u.checked_add(*v) == Some(*w) {
                     Ok(state)
                 } else {
                     Err(())
@@ -141,7 +141,8 @@ where
             }
             (LTermInner::Var(_, _), LTermInner::Var(_, _), LTermInner::Val(LValue::Number(_)))
             | (LTermInner::Var(_, _), LTermInner::Val(LValue::Number(_)), LTermInner::Var(_, _))
-            | (LTermInner::Val(LValue::Number(_)), LTermInner::Var(_, _), LTermInner::Var(_, _)) => {
+            | (LTermInner::Val(LValue::Number(_)), LTermInner::Var(_, _), LTermInner::Var(_, _))
+            | (LTermInner::Var(_, _), LTermInner::Var(_, _), LTermInner::Var(_, _)) => {
                 /* Not enough terms grounded to verify constraint. */
                 Ok(state.with_constraint(self))
             }
